@@ -20,6 +20,7 @@ fn acc_props(dead: bool) -> &'static [&'static str] {
 impl Exec {
     fn note_probe(&mut self, hn: usize) {
         if self.model.hs[hn].dead {
+            self.stale_op = true;
             self.stats.stale_probes += 1;
             let idx = self.model.hs[hn].ent.id();
             if self.model.occ.contains_key(&idx) {
@@ -87,6 +88,7 @@ pub fn apply_storage_op(ex: &mut Exec, uid: u32, kind: &OpKind) -> R {
         ex.stats.probe("generic_storage_by_reference_overload");
         return apply_storage_op(ex, uid, inner);
     }
+    ex.stale_op = false;
     ex.restrict_op = matches!(
         kind,
         OpKind::RestrictRead { .. } | OpKind::RestrictShared { .. } | OpKind::RestrictExcl { .. }
@@ -185,11 +187,16 @@ pub fn apply_storage_op(ex: &mut Exec, uid: u32, kind: &OpKind) -> R {
             }
             acc_props(dead).to_vec()
         }
-        OpKind::Remove { slot, h } => {
+        OpKind::Remove { slot, h, lend } => {
             let Some((hn, e)) = ex.res(*h) else { return ex.skip() };
             ex.note_probe(hn);
             let s = *slot as usize;
-            let got = ex.slots[s].remove(ex.w(), e);
+            let got = if *lend {
+                ex.stats.probe("remove_through_draining_lend_join_lookup");
+                ex.slots[s].lend_drain(ex.w(), e)
+            } else {
+                ex.slots[s].remove(ex.w(), e)
+            };
             let exp = ex.model.remove(s, hn);
             let dead = ex.model.hs[hn].dead;
             if got != exp {
@@ -730,6 +737,7 @@ pub fn apply_storage_op(ex: &mut Exec, uid: u32, kind: &OpKind) -> R {
     };
     let r = ex.post(&state_props);
     ex.restrict_op = false;
+    ex.stale_op = false;
     r
 }
 
